@@ -5,7 +5,7 @@ Each patch is applied to a scratch git worktree of /repo (never /repo itself), t
 usage: selftest/seeded.py [-k] [--all-checks] [id ...]"""
 import json, os, subprocess, sys, shutil, time
 HERE = os.path.dirname(os.path.abspath(__file__)); VERIF = os.path.dirname(HERE)
-WT = "/tmp/verif-seeded-wt"; CACHE = "/tmp/verif-seeded-cache"
+WT = os.environ.get("SEEDED_WT", "/tmp/verif-seeded-wt"); CACHE = os.environ.get("SEEDED_CACHE", "/tmp/verif-seeded-cache")
 
 def sh(*a, **k): return subprocess.run(a, capture_output=True, text=True, **k)
 
